@@ -363,6 +363,45 @@ theorem no_temp_left (xs : List Txn) : ∀ (s : State) (rms : List Path),
         exact hfresh.2.2 x (by simp) y (by simp [hy]) hyt.symm
     · exact ih (endState s x) rms (fresh_end s x r hfresh) t htr
 
+/-! ### runs that terminate by themselves, I/O errors included -/
+
+/-- ops that touch no directory entry but `t` -/
+def onlyAt (t : Path) : Op → Prop
+  | .createTempExcl a => a = t
+  | .remove p => p = t
+  | .rename _ _ => False
+  | .write _ => True
+  | .close => True
+
+theorem dir_onlyAt (t : Path) (ops : List Op) : ∀ s : State, (∀ op ∈ ops, onlyAt t op) →
+    ∀ n, n ≠ t → (exec s ops).dir n = s.dir n := by
+  induction ops with
+  | nil => intro s _ n _; rfl
+  | cons o r ih =>
+    intro s h n hn
+    rw [exec_cons, ih _ (fun op hop => h op (by simp [hop])) n hn]
+    have ho := h o (by simp)
+    cases o with
+    | createTempExcl a =>
+      simp only [onlyAt] at ho; subst ho
+      simp only [step]
+      cases s.dir a <;> simp [upd_other _ _ _ _ hn]
+    | write c => simp only [step]; cases s.fd <;> rfl
+    | close => rfl
+    | rename a b => exact absurd ho (by simp [onlyAt])
+    | remove p =>
+      simp only [onlyAt] at ho; subst ho
+      simp [step, upd_other _ _ _ _ hn]
+
+theorem dir_after_remove (s : State) (ops : List Op) (t : Path) : (exec s (ops ++ [.remove t])).dir t = none := by
+  rw [exec_append]; simp [exec, step]
+
+theorem txnsOps_eq_runOps (xs : List Txn) : txnsOps xs = runOps xs [] := by simp [runOps]
+
+theorem exec_removes_dir_none (l : List Path) (s : State) (t : Path) (h : s.dir t = none) :
+    (exec s (l.map .remove)).dir t = none := by
+  rw [exec_removes]; simp only; split <;> simp [h]
+
 /-! ### Clean removes only what carries this sub-command's per-type header -/
 
 theorem cleanLoop_removable (cmd : Cmd) (gf : String) (l : List FileInfo) :
